@@ -1,5 +1,7 @@
 #include "single.h"
 
+#include "statics.h"
+
 #include <algorithm>
 
 double g_wallLimit = 20.0;
@@ -37,6 +39,7 @@ void afterLinkedHook(int64_t rc, void *user) {
 
 ExecReport simExec(const Case &c, bool linkedAuditHook) {
     ExecReport rep;
+    staticsRestore();  // pristine library statics: executions are independent
     heapReset(c.knobs);
     rep.heap.begin(0, ++g_opSerial, c.fillSeed, c.op.fault);
     heapBind(&rep.heap);
